@@ -337,7 +337,15 @@ func c05Wake(c *Ctx) *RuleResult {
 	wk := p.LookupField(schedPkg, "worker", "wakeup")
 	for _, cs := range CallsTo(units, mark) {
 		u := cs.Unit
-		if u.Fn.Exported() == false {
+		// a worker that is removed from the queue altogether in the same function cannot be handed
+		// anything any more: nothing to wake
+		removed := false
+		for _, w := range FieldWrites([]*FuncUnit{u}, workers, false) {
+			if _, isDel := w.Node.(*ast.CallExpr); isDel {
+				removed = true
+			}
+		}
+		if removed {
 			continue
 		}
 		info := u.Info()
@@ -513,8 +521,8 @@ func c05Reject(c *Ctx) *RuleResult {
 
 func init() {
 	register(&PropertySpec{
-		ID:    "C05",
-		Level: "other",
+		ID:          "C05",
+		Level:       "other",
 		Explanation: "Structural necessary conditions of 'tasks only reach matching, undrained workers': longest-prefix lookup only for Execute, exact lookups elsewhere and exact (platform, size class) key in Synchronize; trie re-indexing before removal; every assignment of queued work is guarded by a never-stale !isDrained; drain additions/removals and terminations wake the affected workers on the same paths; the no-queue rejection codes and ordering; the patched instance name suffix. Trie semantics and registration histories are not decided.",
 		Assumptions: []string{"platform.Trie (tested by the existing suite) implements exact/longest-prefix lookup correctly"},
 		Rules:       []RuleFunc{c05Lookup, c05Drain, c05Wake, c05Reject, schedMatchArgs, schedParallelSlices},
